@@ -79,6 +79,7 @@ def _platform_paths():
 
 
 PLATFORM_PATHS = _platform_paths()
+PLATFORM_TWINS = ["/a", "/someuser", "/c/someone", "/user/someone", "/channel/UCabcdefghijklmnopqrstuv", "/groups/somegroup", "/people/Some-Name/123"]
 # a literal '|' inside a stem is legal as long as it is not followed by a stem
 # marker ('p:' etc.): the serialised format only splits before markers
 PATHS = ["", "/", "/a", "/a/", "/a/b", "/a//b", "/a/b/", "/a/index.html", "/a/./b", "/A", "/%61", "/a/b.html", "/a/b/c", "/a|b", "/a/Foo|Bar", "/a|b/c", "/a||b", "/a|/b",
@@ -149,6 +150,11 @@ def build_universe(crng, size):
             if h in HOST_FAMILIES["platform"] and h != "lemonde.fr":
                 for p in crng.sample(PLATFORM_PATHS, 3):
                     push(schemes[0] + h + p)
+                # schemeless spelling twins: one the platform parser recognises, one it
+                # does not, both normalising to the same string
+                p = crng.choice(PLATFORM_TWINS)
+                push(h + p)
+                push(h + "/.." + p)
     # URLs that only carry another URL of the universe as an obvious redirection
     # target (the normalising variants resolve them: same string, same key)
     from urllib.parse import quote
@@ -195,6 +201,13 @@ def generate(seed, run, tier):
     size = crng.choice([12, 20, 30, 40] if tier == "quick" else [12, 20, 30, 50, 80])
     universe = build_universe(crng, size)
     config["universe"] = universe
+    if cls in ("NormalizedLRUTrie", "FingerprintedLRUTrie") and any("youtu" in u or "facebook" in u for u in universe):
+        # a universe with platform URLs mostly meets a platform-aware trie, and the
+        # normalised variant then often keeps its scheme
+        if crng.random() < 0.6:
+            config["kwargs"]["platform_aware"] = True
+        if cls == "NormalizedLRUTrie" and crng.random() < 0.4:
+            config["kwargs"]["strip_protocol"] = False
     cap = 32 if tier == "quick" else 96
     length = geometric(crng, 8, cap, lo=1)
     enabled = [k for k in FAULT_KINDS if crng.random() < 0.6] if crng.random() < 0.5 else []
